@@ -166,6 +166,28 @@ def main(argv):
 
     classify(cases, results, a.seed)
 
+    # ---- 3b. the property also speaks about other components: run their harness through this property's checker
+    for extra_stage in ([] if a.replay else cfg.get("also", [])):
+        sub = dict(cfg)
+        sub.update(extra_stage)
+        nn = extra_stage.get("n_quick", 150) if a.tier == "quick" else extra_stage.get("n_thorough", 3000)
+        wd2 = os.path.join(workdir, "also_" + extra_stage["harness"])
+        cases_b, hlog_b = core.run_harness(binp, extra_stage["harness"], wd2, a.seed, nn, a.tier, procs=extra_stage.get("procs", 1))
+        if cases_b is None:
+            p = write_broken_replay(cfg, "implementation run aborted in stage %s" % extra_stage["harness"], hlog_b, a.tier, a.seed)
+            violations.append((p, ""))
+            continue
+        res_b, err_b = core.coq_eval(sub, cases_b, wd2)
+        res_b.pop("scope", None)
+        if err_b:
+            p = write_broken_replay(cfg, "Coq evaluation failed in stage %s" % extra_stage["harness"], "\n".join(err_b)[-2000:], a.tier, a.seed)
+            violations.append((p, " no-failing-input-found"))
+            continue
+        for c in cases_b:
+            c["class"] = extra_stage["harness"] + ":" + c.get("class", "")
+        extra_cov["also_%s_cases" % extra_stage["harness"]] = len(cases_b)
+        classify(cases_b, res_b, a.seed)
+
     # ---- 4. per-property extra stages (schedules, -race, exhaustive small scopes)
     if extra is not None and not a.replay:
         fn = getattr(extra, "stage_" + pid, None)
